@@ -30,11 +30,13 @@ Record deviations := {
   d_alias_abort : bool;      (* D120 legacy: first foreign-owned alias aborts trigger_init; function not tracked by its context *)
   d_start_order : bool;      (* D121 new subsystem: delayed decorator managers start in set-iteration order *)
   d_pending_zombie : bool;   (* D122 new subsystem: a manager whose function was rebound/deleted before start still starts *)
-  d_limit_kw : bool          (* D123 entity-method calls pass `limit` to hass.services.async_call, which rejects it *)
+  d_limit_kw : bool;         (* D123 entity-method calls pass `limit` to hass.services.async_call, which rejects it *)
+  d_rt_owner : bool          (* D124 new subsystem: a @service function created at run time inside a running function is owned by that
+                                function's evaluation context name (file.a.build), not by its global context *)
 }.
 Definition all_off : deviations :=
   {| d_stale_handler := false; d_no_alias := false; d_dup_set := false; d_alias_abort := false;
-     d_start_order := false; d_pending_zombie := false; d_limit_kw := false |}.
+     d_start_order := false; d_pending_zombie := false; d_limit_kw := false; d_rt_owner := false |}.
 
 (* ---------- supports_response ---------- *)
 Inductive srd := DAbs | DNone | DOpt | DOnly.          (* as written in the decorator *)
@@ -50,6 +52,7 @@ Definition hinfo : Type := (gen * srm)%type.
 (* ---------- statements and operations ---------- *)
 Inductive stmt :=
   | SDef (f : fid) (decl : list key) (sr : srd)      (* @service(decl..., supports_response=sr) def f(kwargs): ... *)
+  | SDefRt (f : fid) (decl : list key) (sr : srd)    (* the same definition made at run time by a service function (`global f`) *)
   | SDel (f : fid).                                  (* del f *)
 
 Inductive op :=
@@ -67,8 +70,9 @@ Record frec := mk_frec {
   f_bound : bool;           (* its EvalFuncVar is still bound to the name in the context's symbol table *)
   f_tracked : bool;         (* legacy: in ctx.triggers; new: in ctx.dms — released by ctx.stop() *)
   f_pending : bool;         (* new: validated, waiting for ctx.start() *)
-  f_inc : N                 (* which incarnation (load) of its context it was defined in: all function objects of one
+  f_inc : N;                (* which incarnation (load) of its context it was defined in: all function objects of one
                                incarnation hang on the same GlobalContext object and keep each other reachable *)
+  f_own : N                 (* the owner name it registers under (its context, except D124) *)
 }.
 
 Record st := mk_st {
@@ -140,13 +144,13 @@ Definition refresh (s : st) (k : key) : st :=
 Definition upd_rec (g : gen) (f : frec -> frec) (l : list frec) : list frec :=
   map (fun r => if N.eqb (f_gen r) g then f r else r) l.
 Definition with_held (h : list key) (r : frec) :=
-  mk_frec (f_ctx r) (f_name r) (f_gen r) (f_sr r) (f_decl r) h (f_bound r) (f_tracked r) (f_pending r) (f_inc r).
+  mk_frec (f_ctx r) (f_name r) (f_gen r) (f_sr r) (f_decl r) h (f_bound r) (f_tracked r) (f_pending r) (f_inc r) (f_own r).
 Definition with_bound (b : bool) (r : frec) :=
-  mk_frec (f_ctx r) (f_name r) (f_gen r) (f_sr r) (f_decl r) (f_held r) b (f_tracked r) (f_pending r) (f_inc r).
+  mk_frec (f_ctx r) (f_name r) (f_gen r) (f_sr r) (f_decl r) (f_held r) b (f_tracked r) (f_pending r) (f_inc r) (f_own r).
 Definition with_tracked (b : bool) (r : frec) :=
-  mk_frec (f_ctx r) (f_name r) (f_gen r) (f_sr r) (f_decl r) (f_held r) (f_bound r) b (f_pending r) (f_inc r).
+  mk_frec (f_ctx r) (f_name r) (f_gen r) (f_sr r) (f_decl r) (f_held r) (f_bound r) b (f_pending r) (f_inc r) (f_own r).
 Definition with_pending (b : bool) (r : frec) :=
-  mk_frec (f_ctx r) (f_name r) (f_gen r) (f_sr r) (f_decl r) (f_held r) (f_bound r) (f_tracked r) b (f_inc r).
+  mk_frec (f_ctx r) (f_name r) (f_gen r) (f_sr r) (f_decl r) (f_held r) (f_bound r) (f_tracked r) b (f_inc r) (f_own r).
 
 (* trigger_stop (legacy: `for srv_name in self.trigger_service` — a set) / ServiceDecorator.stop:
    the function object gives up everything it holds *)
@@ -183,13 +187,13 @@ Definition unbind (cfg : deviations) (legacy : bool) (s : st) (r : frec) : st :=
    legacy trigger_init's service loop / ServiceDecorator.start.  A legacy function whose loop was aborted (D120) is not
    recorded in its context (trigger_register is never reached) *)
 Definition commit (abort : bool) (s : st) (r : frec) : st :=
-  let '(s', held, ok) := reg_loop abort (f_ctx r) (f_gen r, f_sr r) (f_decl r) s [] in
+  let '(s', held, ok) := reg_loop abort (f_own r) (f_gen r, f_sr r) (f_decl r) s [] in
   set_funcs s' (upd_rec (f_gen r) (fun x => with_tracked ok (with_pending false (with_held held x))) (s_funcs s')).
 
 (* ast_functiondef for a function decorated with @service.  [started]: the context's auto_start flag.
    Order in the code: the new function object registers (trigger_init / dm.start()), then the name is rebound and the
    previous object is finalised: register-before-remove *)
-Definition do_def (cfg : deviations) (legacy started : bool) (c : cid) (f : fid) (decl : list key) (d : srd) (s : st) : st :=
+Definition do_def (cfg : deviations) (legacy started rt : bool) (c : cid) (f : fid) (decl : list key) (d : srd) (s : st) : st :=
   let g := s_next s in
   let m := eff_sr legacy d in
   let s0 := set_next s (g + 1)%N in
@@ -198,7 +202,10 @@ Definition do_def (cfg : deviations) (legacy started : bool) (c : cid) (f : fid)
   let pend := negb legacy && negb invalid && negb started in
   (* D26 on: every occurrence of a repeated name is registered; conformant: a name is registered once *)
   let decl' := if d_dup_set cfg then decl else nodupN decl in
-  let nr := mk_frec c f g m decl' [] true (negb invalid) pend (s_inc s c) in
+  (* ServiceDecorator.start registers under self.dm.ast_ctx.name: for a run-time definition that is the AstEval of the
+     running function (one maker function per definition in the generated scripts: owner id 1000 + generation) *)
+  let own := if rt && negb legacy && d_rt_owner cfg then (1000 + g)%N else c in
+  let nr := mk_frec c f g m decl' [] true (negb invalid) pend (s_inc s c) own in
   let s1 := set_funcs s0 (s_funcs s0 ++ [nr]) in
   let s2 := if legacy then commit (d_alias_abort cfg) s1 nr
             else if invalid || pend then s1 else commit false s1 nr in
@@ -210,7 +217,8 @@ Definition do_del (cfg : deviations) (legacy : bool) (c : cid) (f : fid) (s : st
 
 Definition run_stmt (cfg : deviations) (legacy started : bool) (c : cid) (s : st) (x : stmt) : st :=
   match x with
-  | SDef f decl d => do_def cfg legacy started c f decl d s
+  | SDef f decl d => do_def cfg legacy started false c f decl d s
+  | SDefRt f decl d => do_def cfg legacy started true c f decl d s
   | SDel f => do_del cfg legacy c f s
   end.
 Definition run_body (cfg : deviations) (legacy started : bool) (c : cid) (b : list stmt) (s : st) : st :=
